@@ -213,6 +213,33 @@ def run_model_sharded(cases, shards=16, timeout=1800):
     return out
 
 
+def run_model_each(cases, workers=16, timeout=1800):
+    """one process per case (for a few very large cases), results cached on disk keyed by the
+    model binary and the case text"""
+    from concurrent.futures import ThreadPoolExecutor
+    cdir = os.path.join(VERIF, "work", "cache")
+    os.makedirs(cdir, exist_ok=True)
+    mh = hashlib.sha1(open(MODEL_BIN, "rb").read()).hexdigest()[:16]
+
+    def one(c):
+        text = "%d %s" % (c[0], sx(c[1]))
+        key = hashlib.sha1((mh + text).encode()).hexdigest()
+        path = os.path.join(cdir, key)
+        if len(text) > 20000 and os.path.exists(path):
+            try:
+                return unsx(open(path).read())
+            except Exception:
+                pass
+        r = run_model([c], timeout)[0]
+        if len(text) > 20000:
+            tmp = path + ".%d" % os.getpid()
+            open(tmp, "w").write(sx(r))
+            os.replace(tmp, path)
+        return r
+    with ThreadPoolExecutor(max_workers=workers) as ex:
+        return list(ex.map(one, cases))
+
+
 def coq_eval_sample(cases, timeout=600):
     """Evaluate a few cases inside coqc with vm_compute (kernel evaluator) and return results:
     cross-checks extraction + driver against Coq's own reduction."""
